@@ -140,6 +140,11 @@ class DagLoopWorld(QueryWorld):
             return Opaque("module:" + name)
         return super().resolve_name(ip, name, node)
 
+    def load_list_item(self, ip, obj, key, node):
+        if getattr(obj, "tag", "") == "ndarray" and isinstance(key, ListObj) and not key.items:
+            return ListObj([], tag="ndarray")          # an array indexed by an empty index array
+        return super().load_list_item(ip, obj, key, node)
+
     def load_subscript(self, ip, obj, key, node):
         if isinstance(obj, StaticRec):
             if key not in obj.adj:
@@ -319,6 +324,15 @@ class DagLoopWorld(QueryWorld):
                 d = DagRec()
                 self.dags.append(d)
                 return d
+            # drawing ZERO elements needs no model of the sampler: nothing is drawn
+            if f.tag in ("module:np.random.choice", "module:numpy.random.choice") and args:
+                size = kwargs.get("size", args[1] if len(args) > 1 else None)
+                if isinstance(size, Const) and size.v == 0:
+                    return ListObj([])
+                raise Unsupported(node, "numpy.random.choice (the sampler is not modelled)")
+            if f.tag in ("module:np.array", "module:numpy.array", "module:np.asarray", "module:numpy.asarray") and len(args) == 1 \
+                    and isinstance(args[0], (ListObj, TupleV)):
+                return ListObj(list(args[0].items), tag="ndarray")
             if f.tag == "module:nx.all_simple_paths" and len(args) == 3 and isinstance(args[0], DagRec) and set(kwargs) <= {"cutoff"}:
                 paths = simple_paths(args[0], args[1], args[2])
                 cut = kwargs.get("cutoff")
@@ -831,15 +845,26 @@ def _check_completeness(repo: Repo, rep: Report, tier, ot):
                 # all_time_respecting_paths: every (u, w) of every u present at min_t maps to time_respecting_paths(u)[(u, w)]
                 for min_t in (None, T(2)):
                     stats["runs"] += 1
-                    w = DagLoopWorld(cls, shape, dict(seed), methods, functions, n_ids, True)
-                    ip = Interp(w, ot, max_depth=12)
-                    env = {"G": SelfV(), "start": window[0] if window[0] is not None else NONE, "end": window[1] if window[1] is not None else NONE,
-                           "sample": Const(1), "min_t": min_t if min_t is not None else NONE}
                     wit = "%s %s | all_time_respecting_paths(start, end = %s, min_t=%s) | present: %s" % (
                         cls, shape.name, "None" if window[0] is None else "t+2, t+4", "None" if min_t is None else "t+2", pres)
-                    try:
-                        val = ip.call_function(fn_all, {k: v for k, v in env.items() if k in params_all})
-                    except AbstractRaise as r:
+
+                    def once_all(ch, min_t=min_t):
+                        w = DagLoopWorld(cls, shape, ch, methods, functions, n_ids, True)
+                        ip = Interp(w, ot, max_depth=12)
+                        env = {"G": SelfV(), "start": window[0] if window[0] is not None else NONE, "end": window[1] if window[1] is not None else NONE,
+                               "sample": Const(1), "min_t": min_t if min_t is not None else NONE}
+                        try:
+                            return ip.call_function(fn_all, {k: v for k, v in env.items() if k in params_all}), None
+                        except AbstractRaise as r_:
+                            return None, r_
+                    outcomes = run_all_choices(once_all, max_runs=16, seed=dict(seed))
+                    bad = next(((v_, r_) for _, (v_, r_) in outcomes if r_ is not None), None)
+                    val, r = bad if bad is not None else outcomes[-1][1]
+                    if len({repr(to_py(v_)) if isinstance(v_, DictObj) else repr(v_) for _, (v_, r_) in outcomes if r_ is None}) > 1:
+                        add(c_all, "depends-on-unspecified-order", "all_time_respecting_paths answers differently depending on an unspecified "
+                            "iteration order (a set walked in a loop)", wit)
+                        continue
+                    if r is not None:
                         add(c_all, "raises:%s" % r.exc, "all_time_respecting_paths raises %s (%s)" % (r.exc, r.detail), wit, getattr(r.node, "lineno", 0))
                         continue
                     if not isinstance(val, DictObj):
